@@ -111,7 +111,8 @@ def pruner_spec() -> st.SearchStrategy[dict[str, Any]]:
     return st.one_of(b, b, b, pat)
 
 
-value = st.one_of(st.integers(-10, 10).map(float), st.integers(-3, 3).map(float), st.just(NAN), st.floats(-10, 10, allow_nan=False))
+# "WINF" = the infinity of the worse side (a diverged loss): +inf when minimising, -inf when maximising
+value = st.one_of(st.integers(-10, 10).map(float), st.integers(-3, 3).map(float), st.just(NAN), st.floats(-10, 10, allow_nan=False), st.integers(-10, 10).map(float), st.just("WINF"))
 
 
 @st.composite
@@ -316,6 +317,8 @@ def execute(case: dict[str, Any], offset: int, check: bool, ctx: Ctx | None, pru
         j = pos[i] - 1
         if j < len(c["reports"]):
             step, v = c["reports"][j]
+            if v == "WINF":
+                v = 0.0 if case["champion"] == i else sign * math.inf
             if case["champion"] == i:
                 # strictly better than anything others may report (their values are in [-10,10])
                 v = sign * (-100.0 - v)
